@@ -28,24 +28,70 @@ Fixpoint strip_any_prefix (ps : list bytes) (c : bytes) : option bytes :=
   | p :: r => if has_prefix p c then Some (skipn (length p) c) else strip_any_prefix r c
   end.
 
-(* TestScript.condition.  The values of the built-in conditions (short, net, link, symlink,
-   unix, gc, gccgo, GOOS/GOARCH names, go1.N) are a table supplied per run; exec:prog is
-   decided by the program lookup of the model; everything else goes to Params.Condition;
-   without it the condition is unknown, which is a failure of the line. *)
+(* goVersionRegex (Gen.TsRunConsts.go_version_regex): "go", a numeral without leading zero, a dot,
+   another such numeral: Some (major, minor) for a name of that form *)
+Definition canonical_num (d : bytes) : option N :=
+  match d with
+  | c :: _ => if N.leb 49 (bN c) && N.leb (bN c) 57 then parse_digits 10 0 d else None
+  | [] => None
+  end.
+Fixpoint split_dot (d : bytes) : option (bytes * bytes) :=
+  match d with
+  | [] => None
+  | c :: r =>
+      if beq c x2e then Some ([], r)
+      else match split_dot r with Some (x, y) => Some (c :: x, y) | None => None end
+  end.
+Definition go_version (c : bytes) : option (N * N) :=
+  match c with
+  | g :: o :: r =>
+      if beq g x67 && beq o x6f then
+        match split_dot r with
+        | Some (x, y) =>
+            match canonical_num x, canonical_num y with
+            | Some major, Some minor => Some (major, minor)
+            | _, _ => None
+            end
+        | None => None
+        end
+      else None
+  | _ => None
+  end.
+
+(* slices.Contains(build.Default.ReleaseTags, cond): the tags are go1.1 .. go1.<minor of the
+   toolchain>; numerals without leading zeros are equal as strings exactly when they are equal
+   as numbers *)
+Definition release_tag_holds (toolchain_minor : N) (v : N * N) : bool :=
+  N.eqb (fst v) 1 && N.leb 1 (snd v) && N.leb (snd v) toolchain_minor.
+
+Definition host_flag (cfg : config) (c : bytes) : bool :=
+  match assoc_bool (c_host_conds cfg) c with Some b => b | None => false end.
+
+Definition unix_name : bytes := (* "unix" *) [x75; x6e; x69; x78].
+
+(* TestScript.condition, in the order of its switch.  short, net, link, symlink and gc / gccgo
+   are facts about the host and the compiler, supplied per run as a table; a GOOS / GOARCH name
+   holds when it IS the target; unix when the target is one of the Unix-like systems (the three
+   name lists are regenerated from imports/build.go); exec:prog is decided by the program lookup
+   of the model; go1.N by the release tags of the toolchain; everything else goes to
+   Params.Condition, and without it the condition is unknown, which is a failure of the line. *)
 Definition cond_eval (cfg : config) (st : state) (c : bytes) : cond_res :=
-  match assoc_bool (c_host_conds cfg) c with
-  | Some b => CondVal b
-  | None =>
-      if mem_bytes c cond_exact_names then CondVal false
-      else match strip_any_prefix cond_prefixes c with
-           | Some prog => CondVal (prog_found cfg st prog)
+  if mem_bytes c known_os_names then CondVal (bytes_eqb c (c_goos cfg))
+  else if bytes_eqb c unix_name then CondVal (mem_bytes (c_goos cfg) unix_os_names)
+  else if mem_bytes c known_arch_names then CondVal (bytes_eqb c (c_goarch cfg))
+  else if mem_bytes c cond_exact_names then CondVal (host_flag cfg c)
+  else match strip_any_prefix cond_prefixes c with
+       | Some prog => CondVal (prog_found cfg st prog)
+       | None =>
+           match go_version c with
+           | Some v => CondVal (release_tag_holds (c_go_minor cfg) v)
            | None =>
                match c_custom_cond cfg with
                | Some (tbl, dflt) => match assoc_cond tbl c with Some r => r | None => dflt end
                | None => CondErr
                end
            end
-  end.
+       end.
 
 (* a word of the form [cond] or [!cond]: (wanted value, condition name) *)
 Definition guard_of (a : bytes) : option (bool * bytes) :=
@@ -169,20 +215,34 @@ Definition empty_state (env : list (bytes * bytes)) (work : bytes) (t : tree) : 
      s_stopped := false; s_failed := false; s_fs := t; s_files := []; s_updates := [];
      s_probes := []; s_racy := false; s_unmodelled := false |}.
 
-(* file names of the archive are expanded while envMap is still empty.  The result is the
-   state reached and whether every entry could be written. *)
-Fixpoint unpack (unique : bool) (fs : list (bytes * bytes)) (st : state) : state * bool :=
+(* filepath.Rel(ts.workdir, name) succeeds and filepath.IsLocal(rel) holds: lexically (after
+   Clean) [p] is the work directory itself or lies below it.  [work] and [p] are absolute. *)
+Definition beneath (work p : bytes) : bool :=
+  let w := clean work in
+  let c := clean p in
+  bytes_eqb c w || has_prefix (if bytes_eqb w [SLASH] then w else w ++ [SLASH]) c.
+
+(* setup() has made the initial variables ($WORK, $exe, ${/} ...) the environment of the script
+   BEFORE it unpacks the archive: every entry name is expanded with them (ts.expand) and made
+   absolute (ts.MkAbs; the current directory is the work directory); a name that leaves the work
+   directory is refused (Fatalf: setup fails, nothing is written for this entry or the ones
+   behind it).  The file is registered in scriptFiles under the EXPANDED location, with the
+   name as it is written in the archive as the value.  Params.Setup of the harness leaves
+   Env.Vars alone, so the model has one environment: the initial one is the one the script
+   starts with.  The result is the state reached and whether every entry could be written. *)
+Fixpoint unpack (unique : bool) (work : bytes) (fs : list (bytes * bytes)) (st : state) : state * bool :=
   match fs with
   | [] => (st, true)
   | (name, data) :: r =>
-      let p := mkabs st (expand [] name) in
+      let p := mkabs st (expand (s_env st) name) in
+      if negb (beneath work p) then (st, false) else
       let st0 := set_files st (assoc_set (s_files st) p name) in
       match mkdir_all (s_fs st0) (dir p) 511 with
       | (t1, false) => (set_fs st0 t1, false)
       | (t1, true) =>
           match (if unique then write_file_excl t1 p data 438 else write_file t1 p data 438) with
           | None => (set_fs st0 t1, false)
-          | Some t2 => unpack unique r (set_fs st0 t2)
+          | Some t2 => unpack unique work r (set_fs st0 t2)
           end
       end
   end.
@@ -190,7 +250,7 @@ Fixpoint unpack (unique : bool) (fs : list (bytes * bytes)) (st : state) : state
 Definition setup (cfg : config) (work : bytes) (env : list (bytes * bytes)) (a : archive) : state * bool :=
   match mkdir_all [] (work ++ (* "/.tmp" *) [x2f; x2e; x74; x6d; x70]) 511 with
   | (t, false) => (empty_state env work t, false)
-  | (t, true) => unpack (c_unique cfg) (files a) (empty_state env work t)
+  | (t, true) => unpack (c_unique cfg) work (files a) (empty_state env work t)
   end.
 
 (* a failure of setup is reported as FAIL: file:0 whatever ContinueOnError says *)
@@ -221,7 +281,8 @@ Definition cli_exit (cfg : config) (batch : list job) : N :=
    the count and [cancelled] the state of the context when the next script starts. *)
 Definition cfg_ctx (cfg : config) (cancelled : bool) : config :=
   {| c_continue := c_continue cfg; c_explicit_exec := c_explicit_exec cfg; c_unique := c_unique cfg;
-     c_update := c_update cfg; c_host_conds := c_host_conds cfg; c_custom_cond := c_custom_cond cfg;
+     c_update := c_update cfg; c_host_conds := c_host_conds cfg; c_goos := c_goos cfg; c_goarch := c_goarch cfg;
+     c_go_minor := c_go_minor cfg; c_custom_cond := c_custom_cond cfg;
      c_cmds := c_cmds cfg; c_main_cmds := c_main_cmds cfg; c_helper := c_helper cfg;
      c_helper_dir := c_helper_dir cfg; c_watch := c_watch cfg; c_deadline := c_deadline cfg;
      c_cancelled := cancelled |}.
